@@ -101,6 +101,9 @@ def variants(tier: str, default_fsync_only: bool = False):  # noqa: C901
            'src_pack': 'yes', 'compress': False, 'iter': 'list', 'callback': False}
     add('import:same-hash:tmb-small', {**imp, 'src_cfg': cfg(GiB4, 'sha256'), 'tmb': 1200}, ['mixed', 'empty'])
     add('import:diff-hash:tmb-small', {**imp, 'src_cfg': cfg(GiB4, 'sha1'), 'tmb': 1200, 'compress': True}, ['mixed'])
+    # several cache flushes AND a pack rollover between them: every pack written on the way must be durable before the single final commit
+    imp_many = {**imp, 'src_cs': NEW + [A[1], NEWM] + B + [L], 'req': NEW + [A[1], NEWM] + B + [L]}
+    add('import:same-hash:flushes+rollover', {**imp_many, 'src_cfg': cfg(GiB4, 'sha256'), 'tmb': 1100}, ['empty', 'mixed'], target=500)
     add('import:same-hash:tmb-huge', {**imp, 'src_cfg': cfg(GiB4, 'sha256'), 'tmb': 104857600}, ['mixed'], quick=False)
     add('import:diff-hash:multipack', {**imp, 'src_cfg': cfg(GiB4, 'sha1', 0), 'tmb': 5000}, ['mixed', 'plain'], target=500,
         quick=False)
